@@ -621,3 +621,6 @@ def replay(ctx, data):
         impl.run(k, mode)
         ok = impl.rerender() == base
     return ok
+
+
+DRIVER_OPS = ["tgt"]   # per-area driver executable(s) this check talks to (built before any worker is forked)
